@@ -16,6 +16,11 @@ import (
 // Base is virtual time zero of every execution.
 var Base = time.Date(2030, 1, 1, 0, 0, 0, 0, time.UTC)
 
+// StaleTicks selects the timer-channel semantics of programs whose main module says go < 1.23 (as this library's own
+// go.mod does): a timer that has fired keeps its tick in the channel across Reset / Stop until somebody receives it.
+// With false, Reset and Stop discard an unreceived tick (go >= 1.23). A property must hold under both.
+var StaleTicks bool
+
 // Chooser decides among n alternatives at a labelled point (set by the explorer; nil = 0).
 var Chooser func(label string, n int) int
 
@@ -35,6 +40,7 @@ type timer struct {
 	fired   bool          // value delivered / channel closed on the underlying channel
 	stopped bool
 	fn      func()
+	pending bool // a tick that was delivered before the timer was re-armed and has not been received (see StaleTicks)
 }
 
 // Clock is the virtual clock of the current execution.
@@ -146,6 +152,10 @@ func ResetTimer(id int, d time.Duration) bool {
 	for _, t := range clk.timers {
 		if t.id == id {
 			was := !t.fired && !t.stopped
+			if StaleTicks && !t.stopped && !t.fired && !t.due.After(clk.now) {
+				// it came due while nobody was listening: the tick sits in the channel and stays there
+				t.pending, was = true, false
+			}
 			t.stopped, t.fired = false, false
 			t.due = clk.now.Add(d)
 			return was
@@ -225,7 +235,7 @@ func BeforeWait(hasDefault bool, proxies ...any) {
 		for i, p := range ps {
 			switch {
 			case p.t != nil:
-				if !p.t.stopped && (p.t.fired || !p.t.due.After(c.now)) {
+				if p.t.pending || (!p.t.stopped && (p.t.fired || !p.t.due.After(c.now))) {
 					r = append(r, i)
 				}
 			default:
@@ -282,6 +292,11 @@ func BeforeWait(hasDefault bool, proxies ...any) {
 		rec.Woke = w.t.kind
 		if w.t.kind == "deadline" {
 			w.self.Close()
+		} else if w.t.pending {
+			// the stale tick is received; the re-armed timer keeps running
+			rec.Woke = "stale-tick"
+			w.t.pending = false
+			w.self.Send(reflect.ValueOf(c.now))
 		} else {
 			w.t.fired = true
 			w.self.Send(reflect.ValueOf(c.now))
